@@ -1,0 +1,15 @@
+//! Verification hooks.  Compiled only with the `verif` cargo feature.
+//!
+//! Everything in here is either a public re-export of an item that is
+//! already `pub` inside a crate-private module, or a thin read-only
+//! wrapper around crate-private functionality.  Nothing in this module
+//! is used by the solver itself.
+#![allow(missing_docs)]
+#![allow(non_snake_case)]
+
+// H1 : re-exports of the generic solver core, cone types and KKT solvers
+pub use crate::solver::core::cones::*;
+pub use crate::solver::core::kktsolvers::direct::ldlsolvers;
+pub use crate::solver::core::kktsolvers::direct::*;
+pub use crate::solver::core::kktsolvers::*;
+pub use crate::solver::core::{ScalingStrategy, Solver, StepDirection};
